@@ -134,22 +134,11 @@ func superviseCheck(prop string) int {
 		c.nontrivial("watchdog")
 		c.nontrivial("goroutine-dump")
 		c.sample("watchdog")
-		inLib := ""
-		for _, fn := range []string{"shmipc-go.(*Stream).readMore", "shmipc-go.(*Stream).Flush", "shmipc-go.(*Stream).close", "shmipc-go.(*Session).AcceptStream",
-			"shmipc-go.(*Session).waitForSendErr", "shmipc-go.(*listener).Accept", "shmipc-go.(*SessionManager).Close", "shmipc-go.newSession", "shmipc-go.(*Session).Close"} {
-			if strings.Contains(tail, fn) {
-				inLib = fn
-				break
-			}
-		}
-		progress := map[string]bool{"C05": true, "C07": true, "C10": true, "C11": true, "C14": true, "C16": true, "C17": true, "C19": true, "C20": true}
-		if inLib != "" && progress[prop] {
-			c.violation("watchdog", map[string]interface{}{"goroutines": tail},
-				"the %s workload did not finish within %v: goroutines are blocked inside %s (a call that does not return)", prop, limit, inLib)
-		} else {
-			c.inconclusiveCase("watchdog", fmt.Sprintf("check did not finish within %v", limit))
-			c.noObservation("watchdog")
-		}
+		// never a violation by itself: goroutines parked inside blocking library calls are the normal state of a running
+		// workload, so a dump cannot tell "wedged by the library" from "slow"; the per-call watchdogs inside the checks decide
+		c.setExtra("goroutines_at_watchdog", truncate(tail, 20000))
+		c.inconclusiveCase("watchdog", fmt.Sprintf("check did not finish within %v", limit))
+		c.noObservation("watchdog")
 		c.wall = time.Since(c.start).Seconds()
 		return c.finish()
 	}
